@@ -890,4 +890,159 @@ example : escProp "c:d,e%.proto".toList = "c%3Ad%2Ce%25.proto".toList := by deci
 example : DispInj [ex1, ex2, exNl] := by
   intro a ha b hb; revert a b; decide
 
+/-! ## import statements that cannot be resolved
+
+`importFate files wkt p` is what the compiler's accessor answers for an import path AS WRITTEN
+(a file of the module set named by its normalised path · a Well-Known Type · fs.ErrNotExist · a
+normalpath error: absolute / leaves the root · an existing file not named by its normalised path);
+`buildImageErr` what bufimage.BuildImage returns for it (as coded: every positioned error `Compile`
+returns becomes a FileAnnotationSet, whatever its cause), `moduleDepsErr` what `ModuleDeps()`
+returns (`buf dep graph`).  The harness runs generated paths and module sets through the real
+functions and compares (`imp` lines). -/
+
+/-- **The property's clause for an import that cannot be resolved — whatever the reason.**  For
+    every module set, every list of Well-Known Types and every import path as written: unless the
+    path names a file of the module set by its normalised path or a Well-Known Type, `build`,
+    `lint` and `breaking` (the image is built in a controller method after steps that succeeded;
+    for `breaking` that is either side) end with status 100, exactly the annotation at the import
+    statement printed and no `Failure:` line.  The cause - not found, absolute, leaving the root,
+    not normalised - does not enter. -/
+theorem unresolvable_import_is_annotated (files wkt : List Str) (p : Str) (a : Annot)
+    (h : (importFate files wkt p).resolves = false)
+    (oks rest : List CStep) (hoks : ∀ s ∈ oks, s.2 = none)
+    (pre checks : List Step) (hpre : ∀ s ∈ pre, s = none) :
+    ∀ c ∈ [Cmd.build (oks ++ (true, buildImageErr a (importFate files wkt p)) :: rest),
+           Cmd.lint pre (oks ++ (true, buildImageErr a (importFate files wkt p)) :: rest) checks none,
+           Cmd.breaking pre (oks ++ (true, buildImageErr a (importFate files wkt p)) :: rest) checks none],
+      c.run.exit = 100 ∧ c.run.printed = [a] ∧ c.run.failureLine = false := by
+  have hb : buildImageErr a (importFate files wkt p) = some (.annotSet a []) := by
+    simp [buildImageErr, h]
+  have hpre' : runSteps (pre.map fun s => (false, s)) = none := by
+    rw [runSteps_eq_none_iff]
+    intro s hs
+    obtain ⟨x, hx, rfl⟩ := List.mem_map.mp hs
+    exact hpre x hx
+  have hrun := runSteps_oks_then oks hoks true (.annotSet a []) rest
+  have hl : lintLike pre (oks ++ (true, some (.annotSet a [])) :: rest) checks none
+      = failStep (.annotSet a []) [] := by
+    simp only [lintLike, hpre', hrun, if_true]
+    rfl
+  intro c hc
+  simp only [List.mem_cons, List.mem_nil_iff, or_false] at hc
+  rcases hc with rfl | rfl | rfl
+  · simp only [Cmd.run, build, hb, hrun, if_true]; exact failStep_annotation a
+  · simp only [Cmd.run, hb, hl]; exact failStep_annotation a
+  · simp only [Cmd.run, hb, hl]; exact failStep_annotation a
+
+/-- What decides the fate: a path the bucket rejects is `invalid` with normalpath's error and
+    never looked up; a path that resolves is its own normal form and names a file of the module set
+    or a Well-Known Type; a path that IS its normal form (relative, inside the root) can only be
+    found or not found - `invalid` and `notNormal` are the fates of paths written in another way. -/
+theorem import_fate_of_path (files wkt : List Str) (p : Str) :
+    (∀ e, importFate files wkt p = .invalid e ↔ BufModel.Path.normalizeAndValidate p = .error e) ∧
+    ((importFate files wkt p).resolves = true →
+      BufModel.Path.normalizeAndValidate p = .ok p ∧ (files.contains p = true ∨ wkt.contains p = true)) ∧
+    (BufModel.Path.normalizeAndValidate p = .ok p →
+      importFate files wkt p ≠ .notNormal ∧ ∀ e, importFate files wkt p ≠ .invalid e) := by
+  cases hv : BufModel.Path.normalizeAndValidate p with
+  | error e0 =>
+    have hi : importFate files wkt p = .invalid e0 := by simp only [importFate, hv]
+    rw [hi]
+    refine ⟨fun e => ?_, fun h => ?_, fun h => ?_⟩
+    · constructor
+      · intro h; cases h; rfl
+      · intro h; cases h; rfl
+    · cases h
+    · cases h
+  | ok q =>
+    rw [importFate_ok files wkt p q hv]
+    by_cases hf : files.contains q = true <;> by_cases hw : wkt.contains q = true <;>
+      by_cases hq : q = p <;> simp [hf, hw, hq, ImportFate.resolves] <;> (try subst hq) <;> simp_all
+
+/-- **The recorded regression** (the conversion in `getBuildResult` additionally demands
+    `errors.Is(err, fs.ErrNotExist)`): it agrees with the code exactly on the paths that resolve
+    or are simply not found; for every other fate - an absolute path, a path that leaves the root,
+    an existing file not named by its normalised path - the run ends with status 1, a `Failure:`
+    line and nothing printed, whatever `--error-format` asks for.  Three such paths. -/
+theorem unresolvable_import_guard_counterexample (files wkt : List Str) (p : Str) (a : Annot) :
+    (buildImageErrGuarded a (importFate files wkt p) = buildImageErr a (importFate files wkt p) ↔
+      ((importFate files wkt p).resolves = true ∨ importFate files wkt p = .notExist)) ∧
+    ((importFate files wkt p).resolves = false → importFate files wkt p ≠ .notExist →
+      (Cmd.build [(true, buildImageErrGuarded a (importFate files wkt p))]).run.exit = 1 ∧
+      (Cmd.build [(true, buildImageErrGuarded a (importFate files wkt p))]).run.printed = [] ∧
+      (Cmd.build [(true, buildImageErrGuarded a (importFate files wkt p))]).run.failureLine = true) ∧
+    importFate [] [] "../sibling/b.proto".toList = .invalid .outsideContext ∧
+    importFate [] [] "/usr/include/b.proto".toList = .invalid .notRelative ∧
+    importFate ["a.proto".toList] [] "./a.proto".toList = .notNormal := by
+  refine ⟨?_, ?_, by decide, by decide, by decide⟩
+  · cases hf : importFate files wkt p <;> simp [buildImageErrGuarded, buildImageErr, ImportFate.resolves]
+  · intro hr hn
+    have hg : buildImageErrGuarded a (importFate files wkt p) = some (.wrapf (.plain true)) := by
+      simp [buildImageErrGuarded, hr, hn]
+    rw [hg]
+    decide
+
+/-- `buf dep graph` on the same statement, AS CODED: `ModuleDeps()` finds a file by its normalised
+    path (so `./a.proto` is no problem there); what no module and no Well-Known Type has is the
+    ImportNotExistError - status 100 and a `Failure:` line; a path the bucket rejects comes back as
+    the plain normalpath error - status 1 (the message does not name the importing file).  Outside
+    the four commands of the property; recorded as an observation. -/
+theorem dep_graph_import_as_coded (files wkt : List Str) (p : Str)
+    (oks : List CStep) (hoks : ∀ s ∈ oks, s.2 = none) :
+    match BufModel.Path.normalizeAndValidate p with
+    | .error _ =>
+      (Cmd.depGraph (oks ++ [(false, moduleDepsErr files wkt p)])).run.exit = 1 ∧
+      (Cmd.depGraph (oks ++ [(false, moduleDepsErr files wkt p)])).run.printed = [] ∧
+      (Cmd.depGraph (oks ++ [(false, moduleDepsErr files wkt p)])).run.failureLine = true
+    | .ok q =>
+      if files.contains q || wkt.contains q then
+        (Cmd.depGraph (oks ++ [(false, moduleDepsErr files wkt p)])).run.exit = 0
+      else
+        (Cmd.depGraph (oks ++ [(false, moduleDepsErr files wkt p)])).run.exit = 100 ∧
+        (Cmd.depGraph (oks ++ [(false, moduleDepsErr files wkt p)])).run.failureLine = true ∧
+        (Cmd.depGraph (oks ++ [(false, moduleDepsErr files wkt p)])).run.importNotFound = true := by
+  cases hv : BufModel.Path.normalizeAndValidate p with
+  | error e =>
+    have hm : moduleDepsErr files wkt p = some (.plain true) := by simp only [moduleDepsErr, hv]
+    simp only [hm, Cmd.run, build, runSteps_oks_then oks hoks false (.plain true) []]
+    decide
+  | ok q =>
+    simp only
+    by_cases hq : (files.contains q || wkt.contains q) = true
+    · have hm : moduleDepsErr files wkt p = none := by simp only [moduleDepsErr, hv, hq, if_true]
+      simp only [hq, if_true, hm]
+      have : runSteps (oks ++ [((false, none) : CStep)]) = none := by
+        rw [runSteps_eq_none_iff]
+        intro s hs
+        rcases List.mem_append.mp hs with h | h
+        · exact hoks s h
+        · simp only [List.mem_cons, List.mem_nil_iff, or_false] at h; subst h; rfl
+      simp only [Cmd.run, build, this]
+      rfl
+    · have hm : moduleDepsErr files wkt p = some .importNotExist := by
+        simp only [moduleDepsErr, hv, hq]; rfl
+      simp only [hq, hm, Cmd.run, build, runSteps_oks_then oks hoks false .importNotExist []]
+      decide
+
+-- non-vacuity: each fate is reached; the clause on a concrete workspace
+private def wktEx : List Str := ["google/protobuf/empty.proto".toList]
+private def filesEx : List Str := ["a.proto".toList, "zz/x.proto".toList]
+example : importFate filesEx wktEx "zz/x.proto".toList = .file := by decide
+example : importFate filesEx wktEx "google/protobuf/empty.proto".toList = .wkt := by decide
+example : importFate filesEx wktEx "./google/protobuf/empty.proto".toList = .notNormal := by decide
+example : importFate filesEx wktEx "google/protobuf/nope.proto".toList = .notExist := by decide
+example : importFate filesEx wktEx "zz".toList = .notExist := by decide
+example : importFate filesEx wktEx "zz/".toList = .notExist := by decide
+example : importFate filesEx wktEx [] = .notExist := by decide
+example : importFate filesEx wktEx "zz//x.proto".toList = .notNormal := by decide
+example : importFate filesEx wktEx "zz/x.proto/".toList = .notNormal := by decide
+example : importFate filesEx wktEx "zz/../a.proto".toList = .notNormal := by decide
+example : importFate filesEx wktEx "zz/../../a.proto".toList = .invalid .outsideContext := by decide
+example : importFate filesEx wktEx "..".toList = .invalid .outsideContext := by decide
+example : (Cmd.build [(true, none), (true, buildImageErr ex1 (importFate filesEx wktEx "../x.proto".toList))]).run.exit = 100 := by decide
+example : (Cmd.build [(true, none), (true, buildImageErrGuarded ex1 (importFate filesEx wktEx "../x.proto".toList))]).run.exit = 1 := by decide
+example : moduleDepsErr filesEx wktEx "./a.proto".toList = none := by decide
+example : moduleDepsErr filesEx wktEx "/a.proto".toList = some (.plain true) := by decide
+example : moduleDepsErr filesEx wktEx "nope.proto".toList = some .importNotExist := by decide
+
 end BufProofs.C20
